@@ -63,7 +63,10 @@ type tcase struct {
 	steps      [][]*action // actions of one step run concurrently; steps run one after the other
 }
 
-var entries = []string{"Send", "SendElement", "Encode", "EncodeElement", "TokenWriter", "SendIQ", "SendIQElement", "EncodeIQ", "SendMessage", "EncodeMessageElement", "SendPresence", "SendPresenceElement"}
+var entries = []string{"Send", "SendElement", "Encode", "EncodeElement", "TokenWriter", "SendIQ", "SendIQElement", "EncodeIQ", "SendMessage", "EncodeMessageElement", "SendPresence", "SendPresenceElement",
+	// a value the standard marshaller refuses (nothing is written, the
+	// connection is healthy): the call fails and the stream stays open
+	"EncodeBad", "EncodeElementBad"}
 
 // entries whose payload is a token reader (the harness can act while it is read)
 var readerEntries = map[string]bool{"Send": true, "SendElement": true, "SendIQ": true, "SendIQElement": true, "SendMessage": true, "SendPresence": true, "SendPresenceElement": true}
@@ -220,6 +223,13 @@ func (a *action) transmit(s *xmpp.Session, ns string, conn *wire.Conn) {
 			a.err = s.Encode(ctx, sval{XMLName: xml.Name{Space: "urn:verif:c10", Local: "e"}, M: m, Text: body(a.big)})
 		case "EncodeElement":
 			a.err = s.EncodeElement(ctx, sval{XMLName: xml.Name{Space: "urn:verif:c10", Local: "v"}, M: m, Text: body(a.big)}, xml.StartElement{Name: xml.Name{Space: "urn:verif:c10", Local: "e"}})
+		case "EncodeBad":
+			a.err = s.Encode(ctx, struct {
+				XMLName xml.Name `xml:"urn:verif:c10 e"`
+				C       chan int
+			}{})
+		case "EncodeElementBad":
+			a.err = s.EncodeElement(ctx, map[string]int{"not": 1}, xml.StartElement{Name: xml.Name{Space: "urn:verif:c10", Local: "e"}})
 		case "TokenWriter":
 			w := s.TokenWriter()
 			_, a.err = xmlstream.Copy(w, xt.El("urn:verif:c10", "e", []xml.Attr{xt.A("m", m)}, xt.Tx(body(a.big))).Reader())
@@ -570,6 +580,15 @@ func check(t interface {
 		m := strconv.Itoa(a.idx)
 		if !a.returned {
 			fail("transmit #%d did not return", a.idx)
+		}
+		if strings.HasSuffix(a.entry, "Bad") {
+			if a.err == nil {
+				fail("%s #%d (a value that cannot be marshalled) returned nil", a.entry, a.idx)
+			}
+			if tx.afterClose && !errors.Is(a.err, xmpp.ErrOutputStreamClosed) {
+				fail("%s #%d started after Close had returned: got %v, want ErrOutputStreamClosed", a.entry, a.idx, a.err)
+			}
+			continue
 		}
 		if a.err == nil && !onWire[m] {
 			fail("%s #%d returned nil but its element is not on the wire (before the closing tag)", a.entry, a.idx)
